@@ -470,4 +470,10 @@ def program(c, c11=None, quarantine=()):
         parts.append(PRE11)
     for _ in range(c.int(1, 3)):
         parts.append(g.toplevel())
-    return "\n".join(parts) + "\n", ("c11" if c11 else "c99"), g
+    text = "\n".join(parts) + "\n"
+    if c.chance(0.15):
+        # a pragma that matters to the compiler as the very last line, with or
+        # without a final newline (the symbol becomes weak only if the whole
+        # pragma text survives)
+        text += "int pycp_weak_fn(void) { return 1; }\n#pragma weak pycp_weak_fn" + c.choice(["", "\n", ""])
+    return text, ("c11" if c11 else "c99"), g
